@@ -39,6 +39,18 @@ func HarnessC03Pipeline() {
 	server.SetCommandHandler(h)
 
 	args := vLooseArgs(maxArgs, maxLen, kw)
+	if fixed := vsymParam("fixed"); fixed != "" {
+		// fixed leading arguments (comma separated), e.g. "0,MATCH" so that the loose argument is a SCAN pattern
+		var lead [][]byte
+		start := 0
+		for i := 0; i <= len(fixed); i++ {
+			if i == len(fixed) || fixed[i] == ',' {
+				lead = append(lead, []byte(fixed[start:i]))
+				start = i + 1
+			}
+		}
+		args = append(lead, args...)
+	}
 	req := vReq(append([][]byte{[]byte(cmd)}, args...)...)
 	var in []byte
 	var ends []int
